@@ -50,6 +50,38 @@ fn mt_run(prop: &str, run: u64) -> bool {
     }
 }
 
+/// The first runs of the C04 batch: one arena of (almost) 4 GiB with the cursor put a few bytes below its end, where
+/// `cursor + alignment` no longer fits in `u32`. The arena is a lazily committed Vec; creating it zero-fills it once
+/// (≈ 1 s, 4 GiB resident for the duration of the run), which is why there are only two such runs per batch - one on a
+/// release worker, one on a checked worker.
+pub const HUGE_RUNS: u64 = 2;
+
+fn huge_case(seed: u64, run: u64) -> (st::CaseSpec, Vec<Op>) {
+    use crate::arena::{AllocKind, Backend, Cfg};
+    use crate::ops::Pos;
+    let mut rng = crate::rng::Rng::derive(seed, run, 77);
+    let cap = u32::MAX - rng.below(9) as u32;
+    let cfg = Cfg { sync: rng.chance(1, 2), backend: Backend::Vec, unify: rng.chance(1, 2), freelist: 1 + rng.below(2) as u8, cap, reserved: 0, min_seg: 8, max_align: 8, retries: 3, magic: 0, offset: 0 };
+    let spec = st::CaseSpec { cfg, spurious_seed: None, finish_order: 1, remove_on_drop: false, shared_truncate: false };
+    // the cursor a few bytes below the end, then one request per alignment; a small handle in the last bytes is
+    // kept over the next rewind and released afterwards (its extent cannot become a segment)
+    let mut ops = Vec::new();
+    for (k, ty) in [4u8, 3, 2, 5, 13, 14, 9].iter().enumerate() {
+        ops.push(Op::Rewind(Pos::Start(cap - 1 - ((k as u32 * 3 + rng.below(3) as u32) % 11))));
+        ops.push(match k % 3 {
+            0 => Op::Alloc { kind: AllocKind::Typed, ty: *ty, size: 0, owned: false, arena: 0 },
+            1 => Op::Alloc { kind: AllocKind::Aligned, ty: *ty, size: rng.below(3) as u32, owned: false, arena: 0 },
+            _ => Op::Alloc { kind: AllocKind::Typed, ty: *ty, size: 0, owned: k % 2 == 0, arena: 0 },
+        });
+    }
+    ops.push(Op::Rewind(Pos::Start(cap - 12)));
+    ops.push(Op::Alloc { kind: AllocKind::Bytes, ty: 0, size: 5, owned: false, arena: 0 });
+    ops.push(Op::Alloc { kind: AllocKind::Bytes, ty: 0, size: 3, owned: false, arena: 0 });
+    ops.push(Op::Drop { h: 0 });
+    ops.push(Op::Drop { h: 0 });
+    (spec, ops)
+}
+
 /// One third of the C02 / C07 / C12 runs are recycle-heavy runs with a stalled victim thread.
 fn mt_spec(prop: &str, seed: u64, run: u64) -> MtSpec {
     if matches!(prop, "C02" | "C07" | "C12") && crate::rng::mix(run ^ 0x5eed) % 3 == 0 {
@@ -312,6 +344,13 @@ fn run_one_inner(prop: &str, seed: u64, run: u64, tier: &str) -> RunSummary {
         let (spec, out) = crate::diff::gen_backends(seed, run);
         return summarise_diff(prop, &spec, &out, "backends");
     }
+    if prop == "C04" && run < HUGE_RUNS {
+        let (spec, ops) = huge_case(seed, run);
+        let out = st::run_explicit(&spec, &ops, run);
+        let mut s = summarise_st(prop, &spec, &out);
+        s.faults.insert("arena_of_4gib".to_string(), 1);
+        return s;
+    }
     if mt_run(prop, run) {
         let spec = mt_spec(prop, seed, run);
         let out = mtscen::run_spec(&spec, false);
@@ -400,7 +439,13 @@ pub fn minimise(prop: &str, seed: u64, run: u64, tier: &str, sig: &str) -> Optio
     }
     if ST_PROPS.contains(&prop) {
         let p = gen::profile(prop);
-        let (spec, out) = st::run_generated(&p, seed, run);
+        let (spec, out) = if prop == "C04" && run < HUGE_RUNS {
+            let (spec, ops) = huge_case(seed, run);
+            let out = st::run_explicit(&spec, &ops, run);
+            (spec, out)
+        } else {
+            st::run_generated(&p, seed, run)
+        };
         let v = out.viols.iter().find(|v| v.signature() == sig)?.clone();
         let mut tag = 1u64 << 40;
         let ops = st::minimise(&spec, &out.ops, sig, 300, |s, o| {
